@@ -821,8 +821,8 @@ Proof.
     intros r Hr. apply in_map_iff in Hr. destruct Hr as [c [<- Hc]]. rewrite map_length.
     unfold css in Hc. apply in_map_iff in Hc. destruct Hc as [r0 [<- Hr0]]. apply cells_length.
     rewrite Forall_forall in Hlen, Hpin. apply Hlen. apply Hpin. auto. }
-  assert (Hmnavg : (mn <= avg)%Z) by (apply Qfloor_resp_le; lra).
-  assert (Havgmx : (avg <= mx)%Z) by (apply Qfloor_resp_le; lra).
+  assert (Hmnavg : (mn <= avg)%Z) by (apply (Qfloor_resp_le (scaled - g_emax G - 1) scaled); lra).
+  assert (Havgmx : (avg <= mx)%Z) by (apply (Qfloor_resp_le scaled (scaled + g_emax G + 1)); lra).
   destruct (pv_table_sound ir mn mx avg _ lastm W Hdist Hmnavg ltac:(lia) pmin kv Hget Hwalk)
     as [Hpmin [Hpmax [Hkv Hs]]].
   set (s := match find (fun kv0 : Z * Q => (avg <=? fst kv0)%Z) (rev (cum_desc NumQ 0 (rev lastm))) with
@@ -845,8 +845,10 @@ Proof.
     apply Hs.
     + unfold ir. rewrite Hint, (irows_jrows g). apply (attain_map (fun xc : Q * Z => snd xc)). exact Hl.
     + pose proof (up_arith g _ _ _ M score Hg Hle E0 E1) as HA. fold scaled in HA.
-      pose proof (Qfloor_le scaled) as HF. fold avg in HF.
-      apply Zle_Qle. lra.
+      assert (HF : inject_Z avg <= scaled) by exact (Qfloor_le scaled).
+      rewrite Zle_Qle. apply Qle_trans with scaled; [exact HF|].
+      apply Qle_trans with (scaled + 1); [|exact HA].
+      rewrite <- (Qplus_0_r scaled) at 1. apply Qplus_le_r. discriminate.
   - apply Qle_trans with (wsum (jrows g bg css) (fun l => ind (mn <=? Zsum (map (fun xc : Q * Z => snd xc) l))%Z)).
     + apply wsum_le; auto. intros l _. apply ind_impl. intros E. apply Z.leb_le in E. apply Z.leb_le. lia.
     + apply wsum_le; auto. intros l Hl. apply ind_impl. intros Hle. apply Z.leb_le in Hle.
